@@ -7,6 +7,32 @@ ENGINES = [
 ]
 NOTES = ("Contract-based deductive verification of the real productmd sources; see DESIGN.md. "
          "Exit codes: 0 held, 1 VIOLATION, 2 undecided, 3 checker fault.")
-CHECKS = []
+_NOTE = ("trusted: pyvc's encoding of Python (cross-checked against CPython on a witness of every path, every run), the SMT solvers, "
+         "rx's pNFA model of CPython's sre (differentially tested against re.match every run), CPython/stdlib; assumptions S1 (ASCII "
+         "meaning of \\d/lower/strip), M1 (exception message text not executed); termination not proved; bounded stand-ins are "
+         "reported separately in evidence.coverage.bounded and never counted as proved")
+CHECKS = [
+    {"id": "C13", "technique": "contract-based deductive verification: rx automata decision (greedy-parse inclusion) + pyvc VCs/SMT on the real parse_nvra/_check_nevra",
+     "text": "For every string of the legal NVRA language (unbounded length) RPM_NVRA_RE, taken from the tree, captures the five parts at the intended "
+             "spans (decided exactly by the rx back end); the bodies of parse_nvra and Rpms._check_nevra are verified path by path against "
+             "their contracts ('.rpm' stripping, epoch default/int, canonical re-format), and canonical forms are shown to lie in the legal language (fixed point).",
+     "note": _NOTE + "; A5 (str/int inverse on canonical decimals)"},
+    {"id": "C14", "technique": "contract-based deductive verification: rx language equality for the three patterns + pyvc VCs/SMT (z3+cvc5 portfolio) for create/parse round trip",
+     "text": "The match languages of RELEASE_SHORT_RE/TYPE_RE/VERSION_RE are proved equal to the documented languages over all newline-free strings; "
+             "is_valid_* and create_release_id are verified against contracts; parse_release_id(create_release_id(...)) == parts is proved per known "
+             "release type, with and without base product, on the complement of one known finding (dashed short name with implicit ga), which is re-checked natively each run.",
+     "note": _NOTE + "; known finding listed in known_findings.json (ambiguous id grammar)"},
+    {"id": "C15", "technique": "contract-based deductive verification: rx greedy-parse inclusion for the decoder pattern(s) + pyvc VCs/SMT for create_compose_id, type_suffix and the decoder body",
+     "text": "create_compose_id returns the documented id for all valid parts (proved modularly over the type_suffix contracts); for every created id (any prefix, "
+             "any respin length) the decoder pattern captures date/type/respin at the intended spans; the decoder body maps groups to (date, type, int respin) "
+             "by the documented table and rejects unknown suffixes; every created id is in the id validator's language.",
+     "note": _NOTE + "; RHEL-5 special case and names containing newlines are outside the contract"},
+    {"id": "C19", "technique": "contract-based deductive verification: rx ambiguity analysis (EDA / IDA degree) of every pattern in a generated inventory + syntactic cost contracts over the AST",
+     "text": "Every regular expression the library hands to re (inventory generated from the AST and cross-checked against patterns observed at run time) is proved "
+             "free of exponential ambiguity and of ambiguity degree <= 4; every validator/parser body satisfies a syntactic linear-cost contract.",
+     "note": _NOTE + "; A7 (cost model of a backtracking matcher: O(n^(d+1)) for ambiguity degree d); wall-clock time is not proved"},
+]
 _PENDING = "check not built yet in this round (planned, DESIGN.md section 8); listed here only so that the manifest stays valid while the framework is being built"
-NOT_APPLICABLE = [{"property_id": "C%02d" % i, "reason": _PENDING} for i in range(1, 21)]
+NOT_APPLICABLE = [{"property_id": "C%02d" % i, "reason": _PENDING} for i in range(1, 21) if "C%02d" % i not in [c["id"] for c in CHECKS]]
+for _e in ENGINES:
+    _e["serves_properties"] = [c["id"] for c in CHECKS]
